@@ -207,8 +207,9 @@ def ds_fd(ctx):
            f'the constant applied outside the sketch must be t\'^(-1/p); got `{show(a["new_const"], maxdepth=4)[:160]}`', ctx.loc(fi), sample='c = t\'^(-1/p)')
     # clamps: l, t >= 0; zeroed directions get zero roots
     for nm in ('deflated_eigs', 'new_tail', 'inverted_eigs', 'new_const'):
-      w = [x for x in walk(a[nm]) if is_ext_call(x, 'jax.numpy.where') and is_const(strip_casts(x.args[1][1]), 0, 0.0) and
-           x.args[1][0].op == 'cmp' and x.args[1][0].args[0] == '<=' and is_const(x.args[1][0].args[2], 0, 0.0)]
+      # canonical form of `where(x <= 0, 0, x)` (and of its other spellings): where(0 >= x, 0, x)
+      w = [x for x in walk(a[nm]) if is_ext_call(x, 'jax.numpy.where', 'jax.lax.select') and is_const(strip_casts(x.args[1][1]), 0, 0.0) and
+           x.args[1][0].op == 'cmp' and x.args[1][0].args[0] == '>=' and is_const(x.args[1][0].args[1], 0, 0.0)]
       ctx.ob('C09.R3', fi.short, f'{nm} clamped at 0 {tag}', bool(w),
              f'`{nm}` must pass through where(x <= 0, 0, x) so that l, t >= 0 and dead directions get zero roots', ctx.loc(fi), sample=f'where({nm} <= 0, 0, .)')
     # history factor: sqrt(decay) * sketch * sqrt(eigvals [+ ridge])
